@@ -21,7 +21,7 @@ for p in props:
             'evidence_file': '/verif/evidence/%s.json' % pid,
             'replay_cmd_template': './bin/lpv replay {path}',
             'engine': '+'.join(engines),
-            'level_claimed': {'category': 'proof', 'text': field('level', 'contracts on the real functions (extracted from /repo each run) discharged function by function'), 'design_ref': 'DESIGN.md section 4 ' + pid},
+            'level_claimed': {'category': field('category', 'proof'), 'text': field('level', 'contracts on the real functions (extracted from /repo each run) discharged function by function'), 'design_ref': 'DESIGN.md section 4 ' + pid},
             'level_note': field('note', 'trusted: AST->IR translator, E2 VC generator, z3; double arithmetic as real arithmetic (A1); std:: primitive models and libm axioms (A3)'),
             'technique': field('technique', 'contract-based deductive verification: pre/postconditions, loop invariants and lemmas on the extracted functions, discharged by z3 (own WP generator) and CBMC code contracts'),
         })
